@@ -224,7 +224,7 @@ func VerifC01Sandwich() {
 // VerifC03Rewrite: histories that write a value more than once with changes in between: write, add a track,
 // write again; read a file, add a track, write. The header must always announce the tracks that follow.
 func VerifC03Rewrite() {
-	s := genSMF(3)
+	s := genSMF(zz.Param("nctor"))
 	s.Add(genTrack("a", 1, 2, 127))
 	var first bytes.Buffer
 	_, err := s.WriteTo(&first)
@@ -246,6 +246,16 @@ func VerifC03Rewrite() {
 	if ref.ok {
 		zz.Assert(ref.ntrks == 2 && len(ref.tracks) == 2, "rewrite:header-announces-both-tracks")
 		c02compare(s, ref, "rewrite")
+	}
+	// C01: the value written after the history write/read -> Add -> write reads back as it is
+	if zz.Param("readback") == 0 {
+		zz.Reach("end")
+		return
+	}
+	s3, err3, panicked3 := c02read(second.Bytes())
+	zz.Assert(!panicked3 && err3 == nil && s3 != nil, "rewrite:read-back-ok")
+	if !panicked3 && err3 == nil && s3 != nil {
+		c01sameContent(s, s3, "rewrite:read-back")
 	}
 	zz.Reach("end")
 }
